@@ -521,6 +521,11 @@ def gen_refusal_cases(ctx, n_random):
             add(ps, b"GET / HTTP/1.1\r\nA: b\r\nHost:" + b"h" * big + b"\r\n\r\n", "hdr:huge-host-later")
             add(ps, b"GET / HTTP/1.1\r\n" + host + b"".join(b"X%d: %s\r\n" % (i, b"v" * rng.choice([0, 1, 8])) for i in range(ps // 6 + 4)) + b"\r\n", "hdr:many-small")
             add(ps, b"GET /?" + b"&".join(b"a%d=1" % i for i in range(ps // 8 + 4)) + b" HTTP/1.1\r\n\r\n", "line:many-args")
+            # lines the lenient levels skip (no colon / first line starting with whitespace), then field lines until the pool is full
+            junk = rng.choice([b"no colon here " + b"j" * rng.choice([1, 30, half // 3]), b" leading-space: " + b"w" * rng.choice([1, 40])])
+            add(ps, b"GET / HTTP/1.1\r\n" + junk + b"\r\n" + host + b"".join(b"X%d: %s\r\n" % (i, b"v" * rng.choice([0, 1, 8])) for i in range(ps // 6 + 4)) + b"\r\n",
+                "hdr:skipped-line", lvl=rng.choice([-3, -2, -1]))
+            add(ps, b"GET / HTTP/1.1\r\nHost: h\r\nA: b\r\n" + junk.strip() + b"\r\nX-Big: " + b"v" * big + b"\r\n\r\n", "hdr:skipped-line+huge", lvl=rng.choice([-3, -2]))
             u = rng.choice([half // 4, half // 2, half, 41, 300])
             add(ps, b"GET /" + b"u" * u + b" HTTP/1.1\r\n" + host + b"X: " + b"v" * (ps - u + rng.choice([-40, 0, 40, ps])) + b"\r\n\r\n", "hdr:target-vs-fields")
             add(ps, b"M" * rng.choice([17, 40, half // 2]) + b" /" + b"u" * rng.choice([1, 30, half // 4]) + b" HTTP/1.1\r\n" + host +
@@ -574,6 +579,10 @@ def run_refusal(h_mem, driver, cases, failures):
                     break
                 if h.get("ph") != m.get("ph"):
                     bad = "state class: code %s model %s" % (h.get("ph"), m.get("ph"))
+                elif h.get("ph") != "err" and any(h.get(k) != m.get(k) for k in ("rb", "rbs", "rbo", "pos", "end")):
+                    # the windows and the pool cursors (offsets relative to the arena base)
+                    bad = "buffer geometry: code %s model %s" % (" ".join("%s=%s" % (k, h.get(k)) for k in ("rb", "rbs", "rbo", "pos", "end")),
+                                                                  " ".join("%s=%s" % (k, m.get(k)) for k in ("rb", "rbs", "rbo", "pos", "end")))
                 elif h.get("ph") == "err":
                     hc, mc, why = h.get("code"), m.get("code"), m.get("why")
                     if why == "nospace" and hc not in ("413", "414", "431", "501", "0"):
